@@ -55,6 +55,57 @@ def bad_call(g, ctx):
     return mk('cell_to_boundary', g.weird_cell(), *g.boundary_options())
 
 
+def _retype_value(r, v, depth=0):
+    """An equal-but-not-identical value: 3 <-> 3.0, 1 <-> True, 0.0 <-> -0.0, list <-> tuple, hex case.  A memo keyed
+    by an argument conflates such values (3 == 3.0 and hash(3) == hash(3.0)) although the function's result may
+    differ in type or value; a fresh process, which is asked with exactly these arguments, is the reference."""
+    t = type(v)
+    if t is bool:
+        return int(v)
+    if t is int:
+        if v in (0, 1) and r.random() < 0.3:
+            return bool(v)
+        if abs(v) < (1 << 53):
+            return float(v)
+        return v
+    if t is float:
+        if v != v or v in (float('inf'), float('-inf')):
+            return v
+        if v == 0.0:
+            return -v
+        if abs(v) < (1 << 53) and v == int(v):
+            return int(v)
+        return v
+    if t is str:
+        return v.upper() if v != v.upper() else v.lower()
+    if t is list:
+        return tuple(v) if (depth > 0 or r.random() < 0.6) else [_retype_value(r, x, depth + 1) for x in v]
+    if t is tuple:
+        return list(v) if r.random() < 0.6 else tuple(_retype_value(r, x, depth + 1) for x in v)
+    if t is dict:
+        return {k: _retype_value(r, x, depth + 1) for k, x in v.items()}
+    return v
+
+
+def retype_call(r, call):
+    """The same call with some arguments replaced by equal values of another type; None if nothing changes."""
+    try:
+        args = [canon.dec(a) for a in call['a']]
+    except Exception:
+        return None
+    idx = [i for i in range(len(args))]
+    r.shuffle(idx)
+    changed = False
+    for n, i in enumerate(idx):
+        if n > 0 and r.random() < 0.5:
+            continue
+        v2 = _retype_value(r, args[i])
+        if canon.enc(v2) != canon.enc(args[i]):
+            args[i] = v2
+            changed = True
+    return mk(call['f'], *args) if changed else None
+
+
 def derive(g, ctx, ops, callish):
     """A call whose arguments are computed from the (oracle) result of a recent
     earlier call of the same history: output fed back as input, the way real
@@ -189,15 +240,16 @@ def gen_history(ctx, rng, tier, faults, force=None):
     elif start == 'full':
         warm = full_warm(ctx)
     bases = [g.base() for _ in range(rng.randint(1, 3))]
-    scenario = force.get('scenario') or wchoice(rng, {'random': 57, 'dataflow': 25, 'vertex-walk': 11, 'capacity': 7})
+    scenario = force.get('scenario') or wchoice(rng, {'random': 55, 'dataflow': 25, 'vertex-walk': 10, 'capacity': 10})
     p_derive = {'random': 0.12, 'dataflow': 0.6, 'vertex-walk': 0.2, 'capacity': 0.1}[scenario]
     script = vertex_walk(g, ctx) if scenario == 'vertex-walk' else []
     if script:
         L = max(L, len(script) + rng.randint(0, 6))
     if faults:
-        weights = {'call': 32, 'repeat': 13, 'alias': 8, 'mutate_result': 13, 'mutate_arg': 8, 'bad_call': 8, 'interrupt': 14, 'recycle': 4, 'clock_jump': 3}
+        weights = {'call': 30, 'repeat': 12, 'alias': 7, 'mutate_result': 12, 'mutate_arg': 8, 'bad_call': 8, 'interrupt': 13, 'recycle': 3,
+                   'clock_jump': 3, 'refill': 5, 'retype': 4}
     else:
-        weights = {'call': 58, 'repeat': 24, 'alias': 12, 'recycle': 6}
+        weights = {'call': 55, 'repeat': 23, 'alias': 11, 'recycle': 5, 'retype': 6}
     ops = []
     callish = []            # ids of ops that executed a call
     if scenario == 'capacity':
@@ -211,23 +263,48 @@ def gen_history(ctx, rng, tier, faults, force=None):
         for c in head:
             ops.append(dict({'op': 'call', 'id': len(ops)}, **c))
             callish.append(len(ops) - 1)
-        ops.append({'op': 'bulk', 'id': len(ops), 'kind': wchoice(rng, {'cell_to_lonlat': 5, 'cell_to_boundary': 3, 'lonlat_to_cell': 2}),
-                    'n': n, 'seed': rng.getrandbits(32)})
+        bulk = {'op': 'bulk', 'id': len(ops), 'kind': wchoice(rng, {'cell_to_lonlat': 5, 'cell_to_boundary': 3, 'lonlat_to_cell': 2}),
+                'n': n, 'seed': rng.getrandbits(32)}
+        if rng.random() < 0.5:
+            # a localised workload (one neighbourhood, one resolution) next to the place the judged calls are about:
+            # trains adaptive / locality-driven state, which a spread-out filler keeps resetting
+            bp = rng.choice(bases)[0]
+            c0 = g._offset(bp, rng.choice([0.0, 2.0, 6.0, 12.0, 20.0]) * rng.random())
+            bulk['local'] = [c0[0], c0[1], rng.choice([0.01, 0.5, 2.0, 5.0, 9.0]), rng.choice([0, 1, 3, 6, 10, 10, 14, 20, 28])]
+            bulk['kind'] = wchoice(rng, {'lonlat_to_cell': 6, 'cell_to_lonlat': 2, 'cell_to_boundary': 2})
+        ops.append(bulk)
         for c in head:
             ops.append({'op': 'repeat', 'id': len(ops), 'f': c['f'], 'a': copy.deepcopy(c['a'])})
             callish.append(len(ops) - 1)
+        if bulk.get('local'):
+            # ...and probe the surroundings of the trained neighbourhood: points at all distances from it (inside,
+            # just outside, the next face), at the filler's resolution and at others
+            lc = bulk['local']
+            for _ in range(rng.randint(3, 8)):
+                d = rng.choice([lc[2] * rng.random(), lc[2] * rng.uniform(1.0, 3.0), rng.uniform(0.0, 50.0), rng.uniform(20.0, 45.0)])
+                pt = g._offset((lc[0], lc[1]), d)
+                c = mk('lonlat_to_cell', pt, lc[3] if rng.random() < 0.4 else g.res(0, 29))
+                if ctx.usable(c) and ctx.oracle(c)['steps'] <= 400_000:
+                    ops.append(dict({'op': 'call', 'id': len(ops)}, **c))
+                    callish.append(len(ops) - 1)
         L = len(ops) + rng.randint(0, 5)
     follow = None           # (ref) the caller just edited an object of call `ref`: usually it asks the same thing again
+    follow_alias = False
     for i in range(len(ops), L):
         kind = wchoice(rng, weights)
         if kind not in ('call', 'bad_call', 'interrupt') and not callish:
             kind = 'call'
         if follow is not None and rng.random() < 0.6 and 'f' in ops[follow]:
-            ops.append({'op': 'repeat', 'id': i, 'f': ops[follow]['f'], 'a': copy.deepcopy(ops[follow]['a'])})
+            if follow_alias and rng.random() < 0.5:
+                # the caller edited a container it had passed and now passes the very same object again
+                ops.append({'op': 'alias', 'id': i, 'ref': follow})
+            else:
+                ops.append({'op': 'repeat', 'id': i, 'f': ops[follow]['f'], 'a': copy.deepcopy(ops[follow]['a'])})
             callish.append(i)
             follow = None
             continue
         follow = None
+        follow_alias = False
         op = {'op': kind, 'id': i}
         if script and (kind in ('call', 'repeat', 'alias', 'recycle') and rng.random() < 0.8):
             kind = op['op'] = 'call'
@@ -271,11 +348,49 @@ def gen_history(ctx, rng, tier, faults, force=None):
             else:
                 op['op'] = kind = 'call'
                 op.update(_usable_call(g, ctx, mix, rng.choice(bases)))
+        elif kind == 'retype':
+            j = rng.choice(callish[-4:]) if rng.random() < 0.6 else rng.choice(callish)
+            c = retype_call(rng, ops[j]) if 'f' in ops[j] else None
+            if c is None or not ctx.usable(c) or ctx.oracle(c)['steps'] > 400_000:
+                # nothing to retype there: a new call with some argument in another type
+                c0 = _usable_call(g, ctx, mix, rng.choice(bases))
+                c = retype_call(rng, c0)
+                if c is None or not ctx.usable(c) or ctx.oracle(c)['steps'] > 400_000:
+                    c = c0
+                    op['op'] = kind = 'call'
+            else:
+                follow = j                       # usually the original is asked again right afterwards
+            op.update(c)
+        elif kind == 'refill':
+            # an earlier call that passed a list or dict: the caller writes new content into the same object(s)
+            cands = [j for j in callish if 'f' in ops[j] and any(a[0] in ('L', 'D') for a in ops[j]['a'])]
+            c = None
+            if cands:
+                j = rng.choice(cands[-3:]) if rng.random() < 0.6 else rng.choice(cands)
+                for _ in range(6):
+                    c = g.call(mix, rng.choice(bases), fname=ops[j]['f'])
+                    # same container kinds as the earlier call (a point given as a list stays a list)
+                    for ai in range(min(len(c['a']), len(ops[j]['a']))):
+                        if ops[j]['a'][ai][0] == 'L' and c['a'][ai][0] == 'T':
+                            c['a'][ai] = ['L', c['a'][ai][1]]
+                    if ctx.usable(c) and ctx.oracle(c)['steps'] <= 400_000:
+                        break
+                    c = None
+            if c is not None:
+                op['ref'] = j
+                op.update(c)
+            else:
+                op['op'] = kind = 'call'
+                c = _usable_call(g, ctx, mix, rng.choice(bases))
+                if c['f'] == 'lonlat_to_cell' and c['a'][0][0] == 'T':
+                    c['a'][0] = ['L', c['a'][0][1]]      # a caller-owned coordinate buffer, so that a later refill finds one
+                op.update(c)
         elif kind == 'alias':
             op['ref'] = rng.choice(callish)
         elif kind in ('mutate_result', 'mutate_arg'):
             op['ref'] = rng.choice(callish[-3:]) if rng.random() < 0.6 else rng.choice(callish)
             follow = op['ref']
+            follow_alias = kind == 'mutate_arg'
             op['how'] = rng.choice(MUT_HOW)
             op['val'] = rng.choice([7, 5, -1, (1 << 63) | 1, 3])
         elif kind == 'interrupt':
@@ -296,7 +411,7 @@ def gen_history(ctx, rng, tier, faults, force=None):
                     k = rng.choice(locs[rng.choice(sorted(locs))])
             op['k'] = k
             op['exc'] = rng.choice(['KeyboardInterrupt', 'KeyboardInterrupt', 'MemoryError'])
-        if op['op'] in ('call', 'repeat', 'bad_call', 'interrupt', 'alias', 'recycle'):
+        if op['op'] in ('call', 'repeat', 'bad_call', 'interrupt', 'alias', 'recycle', 'refill', 'retype'):
             callish.append(i)
         ops.append(op)
     return {'ops': ops, 'warm': warm, 'fingerprint': True,
@@ -377,6 +492,9 @@ def run_one(ctx, run_seed, tier, faults, force=None):
         'landed_locs': sorted({r['loc'] for r in recs if r.get('landed') and r.get('loc')}),
         'mut_applied': sum(1 for r in recs if r.get('applied')),
         'recycled': sum(1 for r in recs if r.get('recycled')),
+        'refilled': sum(1 for r in recs if r.get('refilled')),
+        'retyped': sum(1 for r in recs if r['op'] == 'retype'),
+        'local_bulk': sum(1 for o in spec['ops'] if o.get('op') == 'bulk' and o.get('local')),
         'clock_jumps': out.get('clock_jumps', 0), 'clock_reads': out.get('clock_reads', 0),
         'bulk_calls': sum(r.get('n', 0) for r in recs if r['op'] == 'bulk'),
         'raised': sum(1 for r in calls if r['outcome'][0] == 'exc' and not r.get('landed')),
@@ -464,7 +582,7 @@ def minimise(ctx, spec, out, viol, max_runs=300, max_s=90.0):
         if not budget.ok():
             break
         op = state['spec']['ops'][idx]
-        if op['op'] in ('interrupt', 'repeat', 'bad_call', 'recycle') and 'f' in op:
+        if op['op'] in ('interrupt', 'repeat', 'bad_call', 'recycle', 'retype') and 'f' in op:
             s3 = copy.deepcopy(state['spec'])
             s3['ops'][idx] = {'op': 'call', 'id': op['id'], 'f': op['f'], 'a': op['a']}
             g3 = attempt(s3)
